@@ -869,11 +869,10 @@ def dev_rare_case(cls="BinaryCarver"):
 
 class C06(Prop):
     pid = "C06"
-    theorems = ["C06_roundtrip_feature", "C06_roundtrip_state", "C06_roundtrip_behaviour",
-                "C06_normalise", "C06_roundtrip_idempotent", "C06_serialize_normalise",
-                "C06_loads_dumps_plain", "C06_witness_key_collision", "C06_witness_sentinel_category",
-                "C06_witness_neg_inf", "C06_witness_str_differs_from_key",
-                "C06_witness_unordered_content", "C06_checker_sound"]
+    theorems = ["C06_roundtrip_feature", "C06_roundtrip_state", "C06_roundtrip_behaviour", "C06_normalise",
+                "C06_roundtrip_idempotent", "C06_serialize_normalise", "C06_loads_dumps_plain",
+                "C06_witness_key_collision", "C06_witness_sentinel_category", "C06_witness_neg_inf",
+                "C06_witness_str_differs_from_key", "C06_witness_unordered_content", "C06_checker_sound"]
     rule = ("signature = class | feature kinds+flavours | config | which clauses of the property fail | "
             "transform outcome per probe frame | content dict in list order")
     assumptions = [
